@@ -85,6 +85,15 @@ class Opaque(T):
         self.tag = tag
 
 
+class Rec(T):
+    """Reference to a record living in the symbolic map `MapOf(elem)` held in a ghost field (the *record heap*
+    of that class): usable as element type of ListOf (a symbolic-length list of objects with identity) and as
+    a parameter type (an arbitrary existing record)."""
+
+    def __init__(self, elem):
+        self.elem = elem
+
+
 class Callback(T):
     """Opaque callable; `effect(ghost, *args)` is ghost code run at each call;
     `returns` a type for the result (default None); `raises` exception classes
@@ -209,6 +218,7 @@ class Lemma:
         self.prop = kw.pop('prop', None)
         self.modifies = kw.pop('modifies', ['*'])
         self.raises = {}
+        self.native_setup = kw.pop('native_setup', None)
         self.extra = kw
         self.module = None
 
@@ -271,6 +281,12 @@ def same(a, b):
     return _ORIGIN.get(id(a), a) is _ORIGIN.get(id(b), b)
 
 
+def forall_in(seq, f):
+    """f holds of every element of the sequence (symbolically quantified over the element value, `e in seq`, rather
+    than over the index: cheap for append / freshness reasoning)"""
+    return all(f(x) for x in seq)
+
+
 def implies(a, b):
     return (not a) or bool(b)
 
@@ -309,6 +325,11 @@ def mget(m, k, name):
         return 0
     v = getattr(m[k], name)
     return v.is_set() if hasattr(v, 'is_set') else v
+
+
+def rec_live(x):
+    """is the record reference x an allocated object of its record heap (natively: every real object is)"""
+    return True
 
 
 NATIVE_UF = {}
